@@ -119,6 +119,13 @@ set_option maxHeartbeats 1000000 in
 theorem setOrder_keeps_angles {α : Type} [Field α] (o : Ord) (a : V3 α) : setOrderKeeps o a = (a, (o.code : Int)) := by
   cases o <;> (unfold_setOrderKeeps; rfl)
 
+set_option maxHeartbeats 1000000 in
+/-- the copy constructor and `operator= (Euler)` copy angles and order; `operator= (Vec3)` replaces the
+    angles and keeps the order -/
+theorem copy_and_assign {α : Type} [Field α] (o : Ord) (a v : V3 α) :
+    copyAssign o a v = (a, (o.code : Int), a, (o.code : Int), v, (o.code : Int)) := by
+  cases o <;> (unfold_copyAssign; rfl)
+
 /-! ## 3. toMatrix33 / toMatrix44 / toQuat: three textual copies of the Shoemake formulas -/
 
 /-! Raw product forms, without any hypothesis on `sin`/`cos`: `sg`/`ng`/`ngq` (Lemmas/C11Lemmas.lean) record
